@@ -188,7 +188,7 @@ let run (toks : string list) : string =
                let keyed = (match Hap.get_conn !w.Hap.conns (conn c) with Some cn -> cn.Hap.hc_pv_keyed | None -> false) in
                ignore (send (fin (not keyed) false true name Hap.SInvalid))
              | "startonly" -> let okk = send (Hap.PVStart true) in Hashtbl.replace stale_fin c (not okk)
-             | "startzerokeep" ->
+             | "startzerokeep" | "startlow1" | "startlow2" | "startlow3" | "startlow4" | "startlow5" | "startlow6" ->
                (* the accessory derives new keys only when it ACCEPTS the start; the controller's record of its earlier
                   exchange is unchanged *)
                if send (Hap.PVStart true) then Hashtbl.replace stale_fin c true
